@@ -621,7 +621,9 @@ impl Stdfs {
         } else if dst_root.starts_with(src_root.path()) {
             return Err(format!("can't copy {} into itself {}", src_root.path().display(), dst_root.display()).as_str().into());
         }
-        for entry in Stdfs::entries(src_root.path())?.follow(cp.follow) {
+        // Snapshot the source before creating anything so that the copy never traverses its own output
+        let entries: Vec<RvResult<VfsEntry>> = Stdfs::entries(src_root.path())?.follow(cp.follow).into_iter().collect();
+        for entry in entries {
             let src = entry?;
 
             // Set destination path based on source path
